@@ -51,14 +51,29 @@ pub fn lr1110(bus: &std::rc::Rc<std::cell::RefCell<Bus>>) -> lora_phy::lr1110::L
 }
 
 /// create_modulation_params + set_modulation_params on the real driver; answer `field,bit` / `ERR`.
-fn drive<RK: RadioKind>(rk: &mut RK, sf: SpreadingFactor, bw: Bandwidth, cr: CodingRate, rf: u32) -> Result<u8, ()> {
+fn drive<RK: RadioKind>(rk: &mut RK, sf: SpreadingFactor, bw: Bandwidth, cr: CodingRate, rf: u32, pp: Option<u32>) -> Result<u8, ()> {
     let mp = rk.create_modulation_params(sf, bw, cr, rf).map_err(|_| ())?;
     let f = mp.low_data_rate_optimize;
     block_on(rk.set_modulation_params(&mp)).map_err(|_| ())?;
+    if let Some(pp) = pp {
+        // the rest of a TX/RX preparation: packet parameters are programmed after the modulation
+        // parameters (prepare_for_tx / prepare_for_rx); pp selects header / CRC / IQ / lengths
+        let (pre, len) = (if pp & 8 != 0 { 8 } else { 12 }, if pp & 16 != 0 { 255 } else { 17 });
+        // a combination the chip's packet engine refuses (e.g. SF6 with explicit header) is retried
+        // with the other header mode; the packet phase is about the flag surviving it, not about
+        // which packets exist
+        let pkt = match rk.create_packet_params(pre, pp & 1 != 0, len, pp & 2 != 0, pp & 4 != 0, &mp) {
+            Ok(p) => Some(p),
+            Err(_) => rk.create_packet_params(pre, pp & 1 == 0, len, pp & 2 != 0, pp & 4 != 0, &mp).ok(),
+        };
+        if let Some(pkt) = pkt {
+            block_on(rk.set_packet_params(&pkt)).map_err(|_| ())?;
+        }
+    }
     Ok(f)
 }
 
-fn ldro_case(chip: &str, sf: SpreadingFactor, bw: Bandwidth, cr: CodingRate, rf: u32, prior: u8) -> String {
+fn ldro_case(chip: &str, sf: SpreadingFactor, bw: Bandwidth, cr: CodingRate, rf: u32, prior: u8, pp: Option<u32>) -> String {
     let chip = chip.to_string();
     let r = guarded(move || -> String {
         let (proto, sel) = match chip.as_str() {
@@ -70,12 +85,12 @@ fn ldro_case(chip: &str, sf: SpreadingFactor, bw: Bandwidth, cr: CodingRate, rf:
         let _ = sel;
         let bus = Bus::new(proto, prior);
         let res = match chip.as_str() {
-            "sx1261" => drive(&mut sx126x(&bus, lora_phy::sx126x::Sx1261), sf, bw, cr, rf),
-            "sx1262" => drive(&mut sx126x(&bus, lora_phy::sx126x::Sx1262), sf, bw, cr, rf),
-            "stm32wl" => drive(&mut sx126x(&bus, lora_phy::sx126x::Stm32wl { use_high_power_pa: true }), sf, bw, cr, rf),
-            "sx1272" => drive(&mut sx1272(&bus, false), sf, bw, cr, rf),
-            "sx1276" => drive(&mut sx1276(&bus, false), sf, bw, cr, rf),
-            _ => drive(&mut lr1110(&bus), sf, bw, cr, rf),
+            "sx1261" => drive(&mut sx126x(&bus, lora_phy::sx126x::Sx1261), sf, bw, cr, rf, pp),
+            "sx1262" => drive(&mut sx126x(&bus, lora_phy::sx126x::Sx1262), sf, bw, cr, rf, pp),
+            "stm32wl" => drive(&mut sx126x(&bus, lora_phy::sx126x::Stm32wl { use_high_power_pa: true }), sf, bw, cr, rf, pp),
+            "sx1272" => drive(&mut sx1272(&bus, false), sf, bw, cr, rf, pp),
+            "sx1276" => drive(&mut sx1276(&bus, false), sf, bw, cr, rf, pp),
+            _ => drive(&mut lr1110(&bus), sf, bw, cr, rf, pp),
         };
         let Ok(f) = res else { return "ERR".into() };
         let b = bus.borrow();
@@ -121,7 +136,16 @@ pub fn eval(op: &str) -> String {
             if !CHIPS.contains(chip) {
                 return "bad-op".into();
             }
-            ldro_case(chip, sf, bw, cr, rf, prior)
+            ldro_case(chip, sf, bw, cr, rf, prior, None)
+        }
+        ["C15", "flow", chip, sf, bw, cr, rf, prior, pp] => {
+            let (Some(sf), Some(bw), Some(cr), Ok(rf), Ok(prior), Ok(pp)) = (sf_of(sf), bw_of(bw), cr_of(cr), rf.parse::<u32>(), prior.parse::<u8>(), pp.parse::<u32>()) else {
+                return "bad-op".into();
+            };
+            if !CHIPS.contains(chip) {
+                return "bad-op".into();
+            }
+            ldro_case(chip, sf, bw, cr, rf, prior, Some(pp))
         }
         _ => "bad-op".into(),
     }
@@ -161,6 +185,23 @@ pub fn run(tier: &str, seed: u64, dir: &str) {
             }
         }
     }
+    // the flag after a whole TX/RX preparation (modulation parameters, then packet parameters with
+    // every header / CRC / IQ combination): what the chip is left with is what counts
+    for chip in CHIPS {
+        for sf in SFS {
+            for bw in BWS {
+                for prior in [0u8, 0xff] {
+                    for pp in 0..8u32 {
+                        let pp = pp | if (pp + prior as u32) % 3 == 0 { 8 } else { 0 } | if pp % 5 == 0 { 16 } else { 0 };
+                        let op = format!("C15 flow {} {} {} {} {} {} {}", chip, sf.factor(), bw.hz(), 5, 868_100_000, prior, pp);
+                        let a = eval(&op);
+                        let class = if a == "ERR" { format!("{}-flow-unsupported", chip) } else { format!("{}-flow-ldro{}", chip, &a[..1]) };
+                        sink.case(&op, &a, &class, true);
+                    }
+                }
+            }
+        }
+    }
     // seeded: arbitrary u32 frequencies and prior bytes
     let n = if tier == "thorough" { 200_000 } else { 20_000 };
     for _ in 0..n {
@@ -175,7 +216,7 @@ pub fn run(tier: &str, seed: u64, dir: &str) {
     }
     sink.finish(
         dir,
-        "LDRO of lora-modulation `new` for all 80 (sf,bw); for each of 6 chip variants all 80 (sf,bw) x 7 RF frequencies around the 400 MHz band rule x prior register content 0x00/0xff (x 4 coding rates on three of the frequencies): create_modulation_params + set_modulation_params on the real driver over a recording fake SPI, answer = low_data_rate_optimize field and the flag decoded from the programmed byte at its datasheet position; plus seeded arbitrary u32 frequencies / prior bytes. Distinct = distinct op lines; all non-trivial (a concrete decision compared with model and spec). The (chip,sf,bw,band) domain is finite and enumerated completely.",
+        "LDRO of lora-modulation `new` for all 80 (sf,bw); for each of 6 chip variants all 80 (sf,bw) x 7 RF frequencies around the 400 MHz band rule x prior register content 0x00/0xff (x 4 coding rates on three of the frequencies): create_modulation_params + set_modulation_params on the real driver over a recording fake SPI, answer = low_data_rate_optimize field and the flag decoded from the programmed byte at its datasheet position; the same after a whole preparation (set_modulation_params then set_packet_params with every header/CRC/IQ combination, op `flow`); plus seeded arbitrary u32 frequencies / prior bytes. Distinct = distinct op lines; all non-trivial (a concrete decision compared with model and spec). The (chip,sf,bw,band) domain is finite and enumerated completely.",
         true,
         serde_json::json!({}),
     );
